@@ -33,8 +33,10 @@ static int lib_step(z_streamp s, int flush, bool compress)
 			     code == Z_STREAM_ERROR);
 	if (code == Z_OK)
 		VERIF_ASSUME(c > 0 || p > 0);
+	/* "no progress possible": there was no input or no room */
 	if (code == Z_BUF_ERROR)
-		VERIF_ASSUME(c == 0 && p == 0);
+		VERIF_ASSUME(c == 0 && p == 0 &&
+			     (s->avail_in == 0 || s->avail_out == 0));
 	if (code == Z_STREAM_END)
 		VERIF_ASSUME(compress ? flush == Z_FINISH : 1);
 	s->next_in += c;
@@ -45,6 +47,7 @@ static int lib_step(z_streamp s, int flush, bool compress)
 		g_lib_end = true;
 	else if (code != Z_OK && code != Z_BUF_ERROR)
 		g_lib_failed = true;
+	lib_leave(c, p, code == Z_OK);
 	return code;
 }
 
@@ -88,7 +91,7 @@ void harness(void)
 	g_out_size0 = out_size;
 	g_c = g_p = 0;
 	g_lib_calls = 0;
-	g_lib_failed = g_lib_end = false;
+	g_lib_failed = g_lib_end = g_stalled = false;
 	g_resets = 0;
 	g_reset_failed = false;
 	g_mode = (mode < 0 || mode >= XFRM_STREAM_FLUSH_COUNT) ? 0 : mode;
